@@ -7,6 +7,44 @@ import (
 	"rv/sim"
 )
 
+// pairwiseLogMatching: C04.1, evaluated on the reconstructed disks at a rest
+// point: if two logs hold an entry with the same index and term they are
+// identical at every index both retain up to there.
+func (c *checker) pairwiseLogMatching(seq uint64, where string) {
+	names := append([]string(nil), c.order...)
+	for i := 0; i < len(names); i++ {
+		for j := i + 1; j < len(names); j++ {
+			a, b := c.srv[names[i]].disk, c.srv[names[j]].disk
+			var top uint64
+			for k, ea := range a.logs {
+				if eb, ok := b.logs[k]; ok && eb.T == ea.T && k > top {
+					top = k
+				}
+			}
+			if top == 0 {
+				continue
+			}
+			c.cov("log-pairs-compared")
+			for k, ea := range a.logs {
+				eb, ok := b.logs[k]
+				if !ok || k > top {
+					continue
+				}
+				if ea.T != eb.T || ea.P != eb.P || ea.Ty != eb.Ty {
+					sig := "logs-differ-below-common-entry"
+					if k <= a.maxSnapIndex() || k <= b.maxSnapIndex() {
+						// the differing entry sits under a snapshot of one of the two: a stale
+						// entry that survived a snapshot install
+						sig = "stale-entry-under-snapshot-differs"
+					}
+					c.violate("C04", sig, seq, "%s: %s and %s both hold (index %d, term %d) but differ at index %d: (term %d, %q) vs (term %d, %q)", where, names[i], names[j], top, a.logs[top].T, k, ea.T, ea.P, eb.T, eb.P)
+					break
+				}
+			}
+		}
+	}
+}
+
 // finishTail: C12 bounded-progress restatement, evaluated on the readings
 // taken after the convergence budget of the quiet tail.
 func (c *checker) finishTail() {
